@@ -319,6 +319,22 @@ def run(ctx):
         r1.violate("C11|R1|anchor-missing|restricted", "no restricted-mode CORS function (one that tests membership of the origin) was found")
 
     # R4 mode switch
+    # R5: the grants carry the names browsers look for
+    r5 = chk.rule("R5-grant-header-names", "every header whose name starts with Access-Control- that the CORS functions build is one of the six response headers of the Fetch standard, and each function that grants builds Access-Control-Allow-Origin and Access-Control-Allow-Credentials", floor=8)
+    KNOWN = {ACAO, "Access-Control-Allow-Credentials", "Access-Control-Allow-Methods", "Access-Control-Allow-Headers", "Access-Control-Expose-Headers", "Access-Control-Max-Age"}
+    for fn in restricted + allow_all:
+        names = [const_str(nv) for _, _, nv, _ in header_aggregates(ctx.inl(fn))]
+        acs = [x for x in names if x and x.lower().startswith("access-control")]
+        for x in sorted(set(acs)):
+            ok = x in KNOWN
+            r5.instance({"fn": fn.def_, "header": x, "registered": ok}, ok)
+            if not ok:
+                r5.violate("C11|R5|%s|%s" % (fn.def_, x), "%s sends %r, which is not a CORS response header: the grant it was meant to be never reaches the browser" % (fn.def_, x), fn.file, fn.span["line"], fn.def_)
+        for need in (ACAO, "Access-Control-Allow-Credentials"):
+            ok = need in acs
+            r5.instance({"fn": fn.def_, "builds": need, "present": ok}, ok)
+            if not ok:
+                r5.violate("C11|R5|%s|missing|%s" % (fn.def_, need), "%s grants cross-origin access without ever building %s" % (fn.def_, need), fn.file, fn.span["line"], fn.def_)
     r4 = chk.rule("R4-mode-switch", "the restricted function is called only where the allow-all switch parsed to false, and no allow-all call is reachable from that edge (edges that test the Err of a never-failing call are pruned)", floor=2)
     rnames = {f.def_ for f in restricted}
     anames = {f.def_ for f in allow_all}
